@@ -426,6 +426,17 @@ func c08Headers(p *Prog, r *Report) {
 							"port 80 can be reported for a TLS connection (an upstream X-Forwarded-Proto: http without a port decides instead of the connection): X-Forwarded-Port no longer describes the incoming connection")
 					}
 				}
+				// and the Host's own port is used only when there is one: `example.com:` splits without error into
+				// an empty port, which must fall through to the default
+				for _, ret := range Returns(pf) {
+					v := ReturnOperand(ret, 0)
+					if _, isC := constString(v); isC || !strings.Contains(BuildExpr(p, v, nil).String(), "call:net.SplitHostPort#1(fld(p0).Host)") {
+						continue
+					}
+					r.Paths++
+					r.Check(nonEmptyString(p, pf, v, ret, 0), "C08.R4", rn+": the Host's port is used only when it is not empty", p.InstrPos(ret), "returned on the port != \"\" edge",
+						"the port split from the Host header is returned without testing that it is non-empty: for `Host: example.com:` the backend gets an empty X-Forwarded-Port instead of 80/443")
+				}
 				for _, ret := range Returns(pf) {
 					if sv, ok := constString(ReturnOperand(ret, 0)); ok && sv != "" {
 						r.Paths++
@@ -807,6 +818,7 @@ func hookRunsAfterHopRemoval(p *Prog, hook string) (after bool, ok bool) {
 func mutantsC08() []Mutant {
 	fw, rw, hd := "forward/fwd.go", "forward/rewrite.go", "forward/headers.go"
 	return []Mutant{
+		{Name: "forwarded-port-may-be-empty", File: "forward/rewrite.go", Old: "err == nil && port != \"\" {", New: "err == nil {", Expect: "C08.R4"},
 		{Name: "shared-header-rewriter", File: "forward/rewrite.go", Old: "\treturn &HeaderRewriter{TrustForwardHeader: true, Hostname: h}\n", New: "\tsharedRewriter.Hostname = h\n\treturn sharedRewriter\n", More: []Edit{{"forward/rewrite.go", "// NewHeaderRewriter creates", "var sharedRewriter = &HeaderRewriter{TrustForwardHeader: true}\n\n// NewHeaderRewriter creates"}}, Expect: "C08.R6"},
 		{Name: "drop-rawpath", File: fw, Old: "\toutReq.URL.RawPath = u.RawPath\n", New: "", Expect: "C08.R1"},
 		{Name: "proto-unconditional", File: rw, Old: "\txfProto := req.Header.Get(XForwardedProto)\n\tif xfProto == \"\" {", New: "\txfProto := req.Header.Get(XForwardedProto)\n\tif xfProto == \"\" || true {", Expect: "C08.R4"},
